@@ -5,6 +5,11 @@
 //! After the operations, `matches` is queried for every module x level token x
 //! unleveled-default and compared with the statement:
 //!   accept  iff  min = None  or  EventLevel >= min.
+//! The documented matching rule (`Path::is_child_of`): "by" is the registered path the statement
+//! says governs the module ([] = none); the harness finds it again by a linear scan of the
+//! registrations with the real `is_child_of` (most segments wins) and compares path and level.
+//! args[4] (optional): the CHILDOF table [{"child":[..],"parent":[..],"is":bool}] - the real
+//! `is_child_of` on every ordered pair, both paths in every form (static / borrowed / owned).
 use emit::{Filter, Level, Path, Props};
 use vh_common::*;
 
@@ -44,6 +49,38 @@ impl std::fmt::Display for D {
     }
 }
 
+/// The forms a path comes in (spec: level A does not depend on them).
+const PATH_FORMS: [&str; 4] = ["static", "borrowed", "owned", "cow"];
+fn with_path_form<R>(form: &str, text: &str, f: impl FnOnce(&Path) -> R) -> R {
+    match form {
+        "static" => f(&Path::new_raw(Box::leak(text.to_string().into_boxed_str()))),
+        "borrowed" => f(&Path::new_ref_raw(text)),
+        "owned" => f(&Path::new_owned_raw(text)),
+        "cow" => f(&Path::new_cow_ref_raw(std::borrow::Cow::Owned(text.to_string()))),
+        _ => tool_error("unknown path form"),
+    }
+}
+
+/// the registered path governing `mdl` by the documented rule, found with the real is_child_of:
+/// (path text, level of its last registration)
+fn governing_by_is_child_of(ops: &[Value], mdl: &str) -> Option<(String, u64)> {
+    let m = Path::new_ref_raw(mdl);
+    let mut best: Option<(String, u64, usize)> = None;
+    for op in ops.iter().filter(|o| o["op"] == "reg") {
+        let p = path_of(&op["path"]);
+        let pp = Path::new_ref_raw(&p);
+        if m.is_child_of(&pp) {
+            let depth = pp.segments().count();
+            let l = op["lvl"].as_u64().unwrap();
+            match &best {
+                Some((bp, _, bd)) if *bd > depth || (*bd == depth && *bp != p) => {}
+                _ => best = Some((p.clone(), l, depth)),    // deeper, or a later registration of the same path
+            }
+        }
+    }
+    best.map(|(p, l, _)| (p, l))
+}
+
 fn matches_with(f: &impl Filter, path: Path, tok: &Tok) -> bool {
     let tpl = emit::Template::literal("x");
     match tok {
@@ -73,27 +110,74 @@ fn main() {
     quiet_panics();
     // token table produced by the specification: [{"text":..,"lvl":0..4}]
     let tokv: Value = serde_json::from_str(&std::fs::read_to_string(toks).unwrap()).unwrap();
-    let mut tokens: Vec<(String, Tok, u64)> = vec![
-        ("missing".into(), Tok::Missing, 0),
-        ("typed-debug".into(), Tok::Typed(Level::Debug), 1),
-        ("typed-info".into(), Tok::Typed(Level::Info), 2),
-        ("typed-warn".into(), Tok::Typed(Level::Warn), 3),
-        ("typed-error".into(), Tok::Typed(Level::Error), 4),
-        ("int-3".into(), Tok::Int(3), 0),
-        ("owned-typed-debug".into(), Tok::OwnedTyped(Level::Debug), 1),
-        ("owned-typed-error".into(), Tok::OwnedTyped(Level::Error), 4),
+    // (label, token, level per the statement, used in the map matrix too)
+    let mut tokens: Vec<(String, Tok, u64, bool)> = vec![
+        ("missing".into(), Tok::Missing, 0, true),
+        ("typed-debug".into(), Tok::Typed(Level::Debug), 1, true),
+        ("typed-info".into(), Tok::Typed(Level::Info), 2, true),
+        ("typed-warn".into(), Tok::Typed(Level::Warn), 3, true),
+        ("typed-error".into(), Tok::Typed(Level::Error), 4, true),
+        ("int-3".into(), Tok::Int(3), 0, true),
+        ("owned-typed-debug".into(), Tok::OwnedTyped(Level::Debug), 1, true),
+        ("owned-typed-error".into(), Tok::OwnedTyped(Level::Error), 4, true),
     ];
     for t in tokv.as_array().unwrap() {
         let joined: String = t["text"].as_array().unwrap().iter().map(|c| c.as_str().unwrap()).collect();
         let text: &'static str = Box::leak(joined.into_boxed_str());
-        tokens.push((format!("text:{text}"), Tok::Text(text), t["lvl"].as_u64().unwrap()));
-        tokens.push((format!("display:{text}"), Tok::Display(text), t["lvl"].as_u64().unwrap()));
-        tokens.push((format!("owned-text:{text}"), Tok::OwnedText(text), t["lvl"].as_u64().unwrap()));
+        let in_map = t["map"].as_bool().unwrap_or(true);
+        tokens.push((format!("text:{text}"), Tok::Text(text), t["lvl"].as_u64().unwrap(), in_map));
+        tokens.push((format!("display:{text}"), Tok::Display(text), t["lvl"].as_u64().unwrap(), in_map));
+        tokens.push((format!("owned-text:{text}"), Tok::OwnedText(text), t["lvl"].as_u64().unwrap(), in_map));
     }
     let mut rep = Report::new();
+    // the relation itself, on every ordered pair x form of either path
+    if let Some(tp) = args.get(4) {
+        let table: Value = serde_json::from_str(&std::fs::read_to_string(tp).unwrap()).unwrap();
+        let rows = table.as_array().unwrap_or_else(|| tool_error("CHILDOF table is not an array"));
+        if rows.is_empty() {
+            tool_error("empty CHILDOF table");
+        }
+        for row in rows {
+            let (c, p, want) = (path_of(&row["child"]), path_of(&row["parent"]), row["is"].as_bool().unwrap());
+            for fc in PATH_FORMS {
+                for fp in PATH_FORMS {
+                    rep.checks += 1;
+                    let got = catch(|| with_path_form(fc, &c, |cp| with_path_form(fp, &p, |pp| cp.is_child_of(pp))));
+                    if got != Ok(want) {
+                        rep.mismatch("is_child_of differs from ancestor-or-self at :: boundaries", &json!({"childof": row}),
+                            json!({"child": c, "parent": p, "child_form": fc, "parent_form": fp, "want": want, "got": format!("{got:?}")}));
+                    }
+                }
+            }
+        }
+        rep.extra.insert("childof_pairs".into(), json!(rows.len()));
+    }
     for_each_case(cases, |_, case| {
         rep.cases += 1;
         let ops = case["ops"].as_array().unwrap();
+        // the documented rule: most specific registered path the module is_child_of
+        for e in case["expect"].as_array().unwrap() {
+            if e.get("by").is_none() {
+                continue; // a case stored before the rule was added
+            }
+            let mdl = path_of(&e["mdl"]);
+            let by = path_of(&e["by"]);
+            let min = e["min"].as_u64().unwrap();
+            rep.checks += 1;
+            match catch(|| governing_by_is_child_of(ops, &mdl)) {
+                Err(p) => rep.mismatch("panic", case, json!({"is_child_of": p, "mdl": mdl})),
+                Ok(got) => {
+                    let ok = match &got {
+                        None => by.is_empty(),
+                        Some((p, l)) => *p == by && *l == min,
+                    };
+                    if !ok {
+                        rep.mismatch("the most specific registered path by is_child_of differs from the governing path", case,
+                            json!({"mdl": mdl, "want_by": by, "want_min": min, "got": got.map(|(p, l)| json!({"by": p, "lvl": l}))}));
+                    }
+                }
+            }
+        }
         // build through both public construction paths
         for build in 0..2 {
             let r = catch(|| {
@@ -122,7 +206,7 @@ fn main() {
                 for e in case["expect"].as_array().unwrap() {
                     let mdl = path_of(&e["mdl"]);
                     let min = e["min"].as_u64().unwrap();
-                    for (label, tok, tl) in &tokens {
+                    for (label, tok, tl, _) in tokens.iter().filter(|t| t.3) {
                         // event level per the statement: parsed level, else Info
                         let evl = if *tl == 0 { 2 } else { *tl };
                         let want = min == 0 || evl >= min;
@@ -150,7 +234,7 @@ fn main() {
     // plain MinLevelFilter for every min x token x unleveled default
     for min in 1..=4u64 {
         for dflt in 0..=4u64 {
-            for (label, tok, tl) in &tokens {
+            for (label, tok, tl, _) in &tokens {
                 let mut f = emit::level::min_filter(lvl(min));
                 if dflt != 0 {
                     f = f.treat_unleveled_as(lvl(dflt));
